@@ -21,7 +21,7 @@ THEOREMS = [
 LEAN_MODULES = ["PorepyVerif.C29.Props"]
 AUDIT = "PorepyVerif/C29/Audit.lean"
 DRIVER = "PorepyVerif/C29/Driver.lean"
-N = {"quick": 400, "thorough": 8000}
+N = {"quick": 300, "thorough": 10000}
 TOL = 1e-8
 RULE = ("sets of 1-8 segments (thorough: up to 12) with integer end points in a box |x| <= B, B in {2,3,4,6,10} (small boxes make "
         "coincidences frequent; collinear extensions reach |x| <= 14, isolated segments sit at |x| about 30-100), given as a point table (points may be shared by index or repeated under different indices) plus "
@@ -44,7 +44,8 @@ EXPLANATION = ("CORE: the model is the algorithm without the two prefilters over
                "Theorems (all inputs with non-degenerate segments): cover, inside-parent-with-tags, no duplicates, and the FULL non-crossing statement "
                "(non-parallel, parallel and collinear/overlapping parents). Correspondence compares the set of (edge, parent, tags) and the ordered "
                "tag_info list; the oracle checks the property on the real function with exact rationals recovered from the float output.")
-ASSUMPTIONS = ["every input segment has positive length (zero-length segments make segments_2d raise or pass through, depending on the prefilter)",
+ASSUMPTIONS = ["edges are read geometrically (unordered pairs of point coordinates); the numbering of output points is outside the property: when two segments only share their start point under two different point indices and nothing else intersects, the side prefilter skips the pair and the early-return branch returns the coincident points unmerged (edges still meet only at that common end point)",
+               "every input segment has positive length (zero-length segments make segments_2d raise or pass through, depending on the prefilter)",
                "integer coordinates, |x| <= 14 for every segment that meets another one, tol = 1e-8: distinct candidate points differ by > 4e-7 and every non-zero determinant by >= 1, orders of magnitude above the tolerances"]
 
 
